@@ -137,10 +137,14 @@ def U64 : Nat := 2 ^ 64
 
 /-! ### lzma_strm_init / lzma_end -/
 
-/-- `lzma_strm_init` for a non-NULL `strm` whose allocation succeeds: allocates `internal` if missing
-    (with `next = LZMA_NEXT_CODER_INIT`, i.e. no code function; `avail_in` is NOT initialised — it is
-    whatever `junk` the allocator returned), clears `supported_actions`, resets `sequence`,
-    `allow_buf_error` and the totals. An existing coder (`hasCode`) and the saved `avail_in` survive. -/
+/-- `lzma_strm_init` for a non-NULL `strm` whose allocation succeeds. Two cases, as in the C code:
+    * `strm->internal == NULL` (fresh handle, or after `lzma_end`): `internal` is allocated with
+      `next = LZMA_NEXT_CODER_INIT`, i.e. no code function; `avail_in` is NOT initialised — it is whatever `junk`
+      the allocator returned;
+    * `strm->internal != NULL` (a LIVE handle is initialised again without `lzma_end`, which the API allows):
+      the allocation, the installed coder (`hasCode`) and the saved `avail_in` are kept.
+    In BOTH cases every entry of `supported_actions[]` is cleared (`memzero`), `sequence = ISEQ_RUN`,
+    `allow_buf_error = false`, `total_in = total_out = 0`. The public buffer members are not touched. -/
 def lzmaStrmInit (strm : Stream) (junk : Nat := 0) : Stream :=
   let i : Internal := match strm.internal with
     | none => { hasCode := false, sequence := .run, availIn := junk, supported := 0, allowBufError := false }
@@ -150,11 +154,13 @@ def lzmaStrmInit (strm : Stream) (junk : Nat := 0) : Stream :=
     totalIn := 0
     totalOut := 0 }
 
-/-- What a public init function does after `lzma_next_strm_init(func, strm, …)` succeeded:
-    the coder is installed (`next.code != NULL`) and `supported_actions[]` entries are set. -/
+/-- What a public init function does: `lzma_next_strm_init(func, strm, …)` (= `lzma_strm_init`, then the coder's
+    init function, which frees a previous coder of another type and installs its own: `next.code != NULL`), and then
+    ONLY ENABLES its own actions: `supported_actions[X] = true` for each X in `mask` — it never clears an entry.
+    That the result is exactly `mask` whatever the handle did before is the theorem `reinit_resets_supported`. -/
 def installCoder (strm : Stream) (mask : Nat) (junk : Nat := 0) : Stream :=
   let s := lzmaStrmInit strm junk
-  { s with internal := s.internal.map fun i => { i with hasCode := true, supported := mask } }
+  { s with internal := s.internal.map fun i => { i with hasCode := true, supported := i.supported ||| mask } }
 
 /-- `lzma_end`: frees the coder and `internal`; the public members are left alone. -/
 def lzmaEnd (strm : Stream) : Stream := { strm with internal := none }
